@@ -747,6 +747,10 @@ def shards(tier, seed):
         _split_muts(specs, T, "submuts", b32, "allsamples", max_sites=1, max_muts=2, states=["1"], tms=["unknown"], opts=OPTS_RU)
         _split_muts(specs, T, "unimuts", b31, "allsamples", max_sites=1, max_muts=2, states=["0", "1"], tms=two, **dflt)
         _split_muts(specs, T, "unimuts", b32, "allsamples", max_sites=1, max_muts=2, states=["1"], tms=["known"], **dflt)
+        # two sites whose positions are adjacent doubles (and other pairs on the one-ulp grid)
+        bulp = dict(N=2, G=3, times="id", grid="ulp")
+        _split_muts(specs, T, "unimuts", bulp, "allsamples", max_sites=2, max_muts=1, states=["1"], tms=["unknown"], **dflt)
+        _split_muts(specs, T, "submuts", bulp, "allsamples", max_sites=2, max_muts=1, states=["1"], tms=["unknown"], opts=OPTS_RU)
         return specs
     # ---- thorough
     for n in (0, 1, 2, 3):
@@ -777,6 +781,9 @@ def shards(tier, seed):
     _split_muts(specs, T, "unimuts", b31, "allsamples", max_sites=1, max_muts=3, states=["0", "1"], tms=two, **dflt)
     _split_muts(specs, T, "unimuts", b32, "allsamples", max_sites=1, max_muts=2, states=["0", "1"], tms=two, **dflt)
     _split_muts(specs, T, "unimuts", b41, "allsamples", max_sites=1, max_muts=2, states=["0", "1"], tms=two, **dflt)
+    bulp = dict(N=3, G=3, times="id", grid="ulp")
+    _split_muts(specs, T, "unimuts", bulp, "allsamples", max_sites=2, max_muts=1, states=["1"], tms=["unknown"], **dflt)
+    _split_muts(specs, T, "submuts", bulp, "allsamples", max_sites=2, max_muts=1, states=["1"], tms=["unknown"], opts=OPTS_RU)
     return specs
 
 
